@@ -460,7 +460,8 @@ where
             self.refs.set(id, XRef::Raw { pos: pos as _, gen_nr: gen });
             writeln!(self.backend, "{} {} obj", id, gen)?;
             primitive.serialize(&mut self.backend)?;
-            writeln!(self.backend, "endobj")?;
+            // a number, keyword or name must be separated from the keyword that follows
+            writeln!(self.backend, "\nendobj")?;
         }
 
         let xref_pos = self.backend.len() - self.start_offset;
